@@ -10,6 +10,10 @@ import json
 
 from . import tlc
 
+# Deviation clauses of spec/Ports.tla that describe the implementation in /repo as written (the counterpart of FIXES in
+# core_check.py).  When a `fix:` commit repairs one of them, remove its id here (and its entry from known_findings.json): the
+# intended clause then becomes the expectation.  Whether an exercised deviation is a KNOWN-FINDING or a VIOLATION is decided at run
+# time from known_findings.json (harness/findings.py), not here.
 ALL_DEVS = ['FALSY-NONMAPPING-AS-EMPTY-NS', 'DYNAMIC-NS-CREATED-BY-OUT', 'OUT-PATH-THROUGH-VALUE']
 
 HEADER = '''---- MODULE %(name)s ----
@@ -161,10 +165,10 @@ def c12_families(tier):
              trees=trees(ROOTS_OUT if q else ROOTS_OUT_WIDE, 'AllOutputLeaves', ALL_NS_OUT, '{}', 1, 1),
              inst=work_of(2, OUT_VALS_SMALL if q else OUT_VALS_FULL, 2, unsuccessful='short' if q else 'all')),
         dict(name='deep_paths',
-             what='dynamic roots x (no port | 2 leaf variants | 2 namespace variants); every sequence of <= 2 calls (<= 3 in thorough) over '
-                  'paths of length <= 3 (z.u.w, a.z.u, a.u.w ...) x values {0,-1,"s",{u:0}}, every split over two processes',
+             what='dynamic roots x (no port | 2 leaf variants | 2 namespace variants); every sequence of <= 2 calls over paths of length '
+                  '<= 3 (z.u.w, a.z.u, a.u.w ...) x values {0,-1,"s",{u:0}}, every split over two processes',
              trees=trees(DYN_ROOTS, LEAVES_SMALL_OUT[:2], NS_SMALL_OUT[1:], '{}', 1, 1),
-             inst=work_of(3, OUT_VALS_SMALL, 2 if q else 3)),
+             inst=work_of(3, OUT_VALS_SMALL, 2)),
         dict(name='nested_small',
              what='every output tree root{a: namespace{p: leaf | empty namespace}} over 3 leaf / 3 namespace variants (2 at level 2), %d roots; '
                   'every sequence of <= 2 calls over paths of length <= %d x values {0,-1,"s",{u:0}}, every split' % ((2, 2) if q else (3, 3)),
@@ -180,10 +184,15 @@ def c12_families(tier):
     ]
     if not q:
         fams.append(dict(
+            name='deep_paths_3calls',
+            what='the trees of deep_paths; every sequence of <= 3 calls over paths of length <= 3 x values {0,-1,"s",{u:0}}, single process',
+            trees=trees(DYN_ROOTS, LEAVES_SMALL_OUT[:2], NS_SMALL_OUT[1:], '{}', 1, 1),
+            inst=work_of(3, OUT_VALS_SMALL, 3, two_process=False)))
+        fams.append(dict(
             name='three_ports_small',
             what='every output tree with 3 ports below the root, depth <= 2, <= 2 ports per namespace over 3 leaf / 3 namespace variants '
-                 '(2 at level 2), default and dynamic root; every sequence of <= 2 calls over paths of length <= 2 x values {0,-1,"s",{u:0}}',
-            trees=_shape(trees(ROOTS_OUT[:2], LEAVES_SMALL_OUT, NS_SMALL_OUT, NS2_SMALL_OUT, 3, 2),
+                 '(2 at level 2), default root; every sequence of <= 2 calls over paths of length <= 2 x values {0,-1,"s",{u:0}}',
+            trees=_shape(trees([ROOT_DEFAULT], LEAVES_SMALL_OUT, NS_SMALL_OUT, NS2_SMALL_OUT, 3, 2),
                          'Len(x.ports) + (IF Len(x.ports) > 0 THEN Len(x.ports[1].p.ports) ELSE 0) + (IF Len(x.ports) > 1 THEN Len(x.ports[2].p.ports) ELSE 0) = 3'),
             inst=work_of(2, OUT_VALS_SMALL, 2, two_process=False)))
     return fams
